@@ -3597,13 +3597,17 @@ func UnmarshalSubTLVs(stlvs map[uint32]*api.SRv6SubTLVs) (uint16, []bgp.PrefixSI
 				// SRv6 Information Sub TLV length consists 1 byte Resrved2, 16 bytes SID, 1 byte flags, 2 bytes Endpoint Behavior
 				// 1 byte Reserved3 and length of Sub Sub TLVs
 				info.Length = 1 + 16 + 1 + 2 + 1 + sstlvslength
-				// For total Prefix SID TLV length, adding 3 bytes of the TLV header + 1 byte of Reserved1
-				l += info.Length + 4
+				// For total Prefix SID TLV length, adding 3 bytes of the Sub TLV header
+				l += info.Length + 3
 				p = append(p, info)
 			}
 		default:
 			return 0, nil, fmt.Errorf("unknown or not implemented Prefix SID Sub TLV type: %d", t)
 		}
+	}
+	if len(p) > 0 {
+		// 1 byte of Reserved1 of the enclosing service TLV, once
+		l++
 	}
 
 	return l, p, nil
